@@ -14,32 +14,54 @@ ALLOWED_AXIOMS = []
 READY = True
 RUN_IMPORT = "Html.StreamRun"
 
-RULE = ("case = (ooo?, drive, view tree, futures complete before rendering, schedule). Trees: a fixed set of "
-        "template shapes (text/element siblings on either side of a Suspend, Suspend nested in Suspend, Suspense-like "
-        "boundaries with fallbacks, siblings, raw push_sync/push_async/append call patterns) plus random trees, all with "
-        "<= 4 futures and unique text labels; schedules: for the templates every permutation of completions interleaved "
-        "with 0..2 polls between completions (all of them in thorough, a seeded sample in quick), random interleavings "
-        "for random trees; each schedule run in both the literal drive (then complete the rest, poll to the end) and the "
-        "executor drive (poll only after a wake-up), in-order and out-of-order. A case is non-trivial when at least one "
-        "future is still pending when the view is rendered (so the stream really has an asynchronous chunk); distinct = "
-        "distinct case hash.")
+RULE = ("case = (opcode, mode, drive, view tree, futures complete before rendering, schedule). mode: in-order / "
+        "out-of-order, the plain or the `_branching` entry point, with or without a nonce. Trees: ~165 hand-written shapes "
+        "(text/element siblings on either side of a Suspend, nesting, Suspense-like boundaries, raw push_sync/push_async/"
+        "append call patterns, the real leptos ErrorBoundary/Suspense/Transition/Await/Unsuspend, resources read "
+        "synchronously or used as views, LocalResources, closures, every container and wrapper of tachys (Vec, Option, "
+        "Either*, Result, arrays, StaticVec, Fragment, keyed lists, OwnedView, View, tuples up to arity 26, chained "
+        ".child()), every text representation (String, &str, Cow, Arc<str>, Oco, numbers, signals), void elements, "
+        "attributes, inner_html, <textarea>/<style> content, spread attributes) plus random trees of 11 families, "
+        "all with <= 4 futures and unique text labels; schedules: for the templates every permutation of completions "
+        "interleaved with 0..2 polls between completions (all of them in thorough, a seeded sample in quick), random "
+        "interleavings for random trees; each in the literal drive (then complete the rest, poll to the end), the executor "
+        "drive (poll only after a wake-up) and the executor drive with a new waker for every poll; opcode 1: executor "
+        "turns (create / tick / render / poll / complete) under the schedule's control for the leptos components; "
+        "opcode 2: the view goes through leptos_integration_utils' from_app (the response pipeline of the integrations). "
+        "A case is non-trivial when at least one future is still pending when the view is rendered (so the stream really "
+        "has an asynchronous chunk); distinct = distinct case hash.")
 TRUSTED = [
     "Coq 8.16.1 kernel (coqc); no axioms: every theorem of Properties_C07.v is 'Closed under the global context'",
     "extraction to OCaml with ExtrOcamlBasic only, ocamlfind ocamlopt, extract/driver.ml sexp I/O",
-    "harness/stream (Rust): real tachys views (String, HtmlElement, tuples, Suspend) erased with into_any(), futures = "
-    "futures::channel::oneshot, the StreamBuilder polled by hand with a counting std::task::Wake; the Suspense-like "
-    "boundary, the ErrorBoundary-like append wrapper and the raw push_sync/push_async nodes are harness views that make "
-    "the same StreamBuilder calls as leptos' SuspenseBoundary / ErrorBoundary (transcribed, not the leptos components)",
+    "harness/stream (Rust): real tachys views erased with into_any(), futures = futures::channel::oneshot (Shared where a "
+    "closure builds its view again), the StreamBuilder polled by hand with a counting std::task::Wake, a harness-owned "
+    "deterministic executor; the Suspense-like boundary, the ErrorBoundary-like append wrapper and the raw "
+    "push_sync/push_async nodes are harness views that make the same StreamBuilder calls as leptos' SuspenseBoundary / "
+    "ErrorBoundary (transcribed, not the leptos components); built with reactive_graph's sandboxed-arenas (as every "
+    "integration is)",
+    "compared, not proved by induction over their own code: Vec, Option, Either*, Result::Ok, OwnedView, View, arrays, "
+    "StaticVec, Fragment, keyed lists, &str/Cow/Arc<str>/Oco/numbers/signals and chained .child() are decoded to the view of "
+    "the grammar they render like (StreamRun.view_of) and compared with the real types on every run",
+    "judged by the model-independent oracle only (not in the Coq model): the real leptos components (ErrorBoundary, Suspense, "
+    "Transition, Await, Unsuspend), closures, resources, LocalResources, void elements, attributes, inner_html, "
+    "<textarea>/<style>, add_any_attr, the `_branching` entry points, nonces, the new-waker-per-poll drive, the from_app "
+    "pipeline",
     "modelled, not verified: String::find of a marker comment in sync_buf is modelled as search for the marker token "
     "(text is escaped, no other emitted token contains '<!--s-'); html_escape::encode_text (& < > only); u16 overflow "
-    "of suspense ids is not modelled; the browser: incremental HTML parsing, <template> inertness and the effect of the "
-    "replacement <script> (Stream.apply_ooo / gen/htmlparse_stream.py re-implement it from reading the JavaScript)",
+    "of suspense ids is not modelled; the browser: incremental HTML parsing, <template> inertness, raw-text elements and "
+    "the effect of the replacement <script> (Stream.apply_ooo / gen/htmlparse_stream.py re-implement it from reading the "
+    "JavaScript)",
 ]
 ASSUMPTIONS = [
-    "each future id occurs once in a view (a Rust future is owned by one chunk)",
+    "each future id occurs once in a view (a Rust future is owned by one chunk; views below a closure share it)",
     "futures complete at most once and never fail (oneshot sender kept alive by the harness)",
-    "the task's waker stays valid between polls (every poll of one task uses equivalent wakers)",
-    "escape = true everywhere (no <script>/<style> parents), mark_branches = false, no extra attributes, no nonce",
+    "theorems: the task's waker stays valid between polls (every poll of one task uses equivalent wakers); the harness "
+    "also drives a new waker per poll (oracle only)",
+    "theorems: escape = true everywhere, mark_branches = false, no extra attributes, no nonce (all four are driven and "
+    "judged by the oracle, not modelled)",
+    "unescaped user text (<style> content, inner_html) does not contain the marker comment '<!--s-' of a pending chunk",
+    "a LocalResource is read under a <Suspense>/<Transition> only (outside, leptos_server panics in ssr mode) and not "
+    "inside a keyed list (F-C07-i)",
 ]
 
 # ------------------------------------------------------------------ view constructors
@@ -958,7 +980,7 @@ def generate(rng, tier):
                 for perm in perms if not quick else rng.sample(perms, min(2, len(perms))):
                     yield item(mode, rng.choice([1, 2]), tree, [], [Cm(f) for f in perm], "tpl-exec-" + mode_name(mode))
     # 2. random trees
-    n = 12000 if quick else 200000
+    n = 12000 if quick else 130000
     for i in range(n):
         fam, allow = FAMILIES[rng.choice([0, 0, 0, 0, 1, 1, 1, 2, 2, 3, 3, 4, 4, 4, 5, 5, 6, 7, 7, 8, 8, 9, 10, 10])]
         lab = Lab(rng)
@@ -1104,10 +1126,12 @@ def py_render(v, flag, dropped=frozenset(), attrs="", esc=True):
         return R(v[2], flag)
     if k == 4:
         return R(v[3] if v[4] else v[2], flag)
-    if k in (5, 7, 10):
-        # ErrorBoundary renders its children on a copy of the position (sync and streaming alike);
-        # the raw push_async node is defined the same way
-        inner, _ = R(v[2] if k == 7 else v[1], flag)
+    if k in (5, 10):
+        # ErrorBoundary (no error): its children, and the position they leave (/repo d34c527)
+        return R(v[1], flag)
+    if k == 7:
+        # the raw push_async node renders its content on a copy of the position
+        inner, _ = R(v[2], flag)
         return inner, flag
     if k == 6:
         return text_of_node(v), flag
@@ -1503,16 +1527,19 @@ def _classify(item, impl, model):
     # F-C07-f: exactly the content of some un-awaited nested Suspends is missing;
     # F-C07-a: a pending asynchronous node handed back a stale position, and the documents differ
     # only in <!> separators next to text.  (Both can occur in one case.)
+    # (F-C07-i, reads inside a keyed list that rendered None, can occur together with both.)
     ns = nested_suspends(tree)
-    for r in range(0, len(ns) + 1):
-        for sub in itertools.combinations(ns, r):
+    cand = ns + [f for f in kres if f not in ns] if "every future complete before rendering" not in msg else ns
+    for r in range(0, len(cand) + 1):
+        for sub in itertools.combinations(cand, r):
+            name = "F-C07-f" if any(f in ns for f in sub) else "F-C07-i"
             sub = frozenset(sub)
             want = tree_of(py_render(tree, False, sub)[0])
             if r > 0 and got == want:
-                return "F-C07-f"
+                return name
             stale = not pos_free(ooo, tree, False, set(init), False, False, sub)
             if stale and H.strip_markers(got) == H.strip_markers(want):
-                return "F-C07-f" if r > 0 else "F-C07-a"
+                return name if r > 0 else "F-C07-a"
     return None
 
 
@@ -1605,10 +1632,17 @@ LEVEL_TEXT = ("Coq proofs about an executable Gallina transcription of tachys' S
               "model and the real code (real tachys views and StreamBuilder, oneshot-controlled futures, hand-polled stream, "
               "counting waker) on the same thousands of trees x schedules every run, plus a model-independent oracle that parses "
               "the streamed bytes like a browser (incremental parse, inert <template>, re-implemented replacement script), "
-              "also applied to the real leptos Suspense/Transition/ErrorBoundary components.")
+              "also applied to the real leptos Suspense/Transition/ErrorBoundary/Await/Unsuspend components, closures, resources, "
+              "element variants (void, attributes, inner_html, <textarea>/<style>), spread attributes, the _branching entry "
+              "points, nonces and the integrations' from_app pipeline; tachys' containers, wrappers and text representations "
+              "are compared with the model through a decoding to the view grammar.")
 LEVEL_NOTE = ("Trusted: Coq kernel, ExtrOcamlBasic extraction + OCaml driver, the Rust harness (its Suspense-like boundary and "
-              "append wrapper transcribe leptos' call patterns; the real leptos components are checked by the oracle only, they "
-              "are not modelled), the browser semantics encoded in Stream.apply_ooo / gen/htmlparse_stream.py; String::find of a "
-              "marker is modelled as a token search. No axioms.")
+              "append wrapper transcribe leptos' call patterns), the browser semantics encoded in Stream.apply_ooo / "
+              "gen/htmlparse_stream.py; String::find of a marker is modelled as a token search. Compared with the model through "
+              "a decoding to the grammar (not proved over their own code): tachys' containers, wrappers and text "
+              "representations. Judged by the oracle only (not modelled): the real leptos components, closures, resources, "
+              "element variants (void, attributes, inner_html, <textarea>/<style>), spread attributes, the _branching entry "
+              "points, nonces, a new waker per poll, the from_app response pipeline. No axioms. coverage/C07.md lists every "
+              "entry point of the anchor files with what drives and judges it.")
 TECHNIQUE = ("Coq proof (invariants of the poll_next state machine, induction over views and schedules) + differential "
              "correspondence of the extracted model with the Rust code")
